@@ -39,6 +39,16 @@ func ParseConfig() (*Config, error) {
 		return nil, fmt.Errorf("failed to load config (%s): %v", envPath, err)
 	}
 
+	// The embedded configs are only allocated by the decoder when one of their
+	// keys is present; an empty (or e.g. logging-only) file must still yield a
+	// usable Config with default settings instead of nil pointers.
+	if c.ZMQConfig == nil {
+		c.ZMQConfig = &ZMQConfig{}
+	}
+	if c.RegConfig == nil {
+		c.RegConfig = &RegConfig{}
+	}
+
 	if err := c.ParseBlocklists(); err != nil {
 		return nil, fmt.Errorf("failed to load config (%s): %v", envPath, err)
 	}
